@@ -133,11 +133,13 @@ class G:
 
     def k_select(self, cls, mode):
         A = []
-        sel = [{"m": "select", "a": [self.expr(TA) for _ in range(self.rng.randint(1, 2))]}
+        sel = [{"m": "select", "a": [(self.ch(COLS) if (mode == "main" and self.p(0.2)) else self.expr(TA))
+                                     for _ in range(self.rng.randint(1, 2))]}
                for _ in range(self.rng.randint(1, 3))]
         if self.p(0.3):
             # duplicates in the select list are legal and stay (DISTINCT is a flag, not a call-time de-duplication)
-            sel.append({"m": "select", "a": [dict(sel[0]["a"][0])]})
+            first = sel[0]["a"][0]
+            sel.append({"m": "select", "a": [dict(first) if isinstance(first, dict) else first]})
         A.append({"group": "select", "calls": sel})
         # flags of the SELECT clause are independent pieces of state: one actor each
         if self.p(0.25):
@@ -162,7 +164,8 @@ class G:
         if cls == "Query" and self.p(0.15):
             A.append({"group": "prewhere", "calls": [{"m": "prewhere", "a": [self.crit(TA)]}]})
         if self.p(0.4):
-            g = [{"m": "groupby", "a": [F(TA, self.ch(COLS))]} for _ in range(self.rng.randint(1, 2))]
+            g = [{"m": "groupby", "a": [self.name_or_field(TA) if mode == "main" else F(TA, self.ch(COLS))]}
+                 for _ in range(self.rng.randint(1, 2))]
             if cls in ("Query", "PostgreSQLQuery", "OracleQuery") and self.p(0.3):
                 g.append({"m": "rollup", "a": [F(TA, self.ch(COLS))]})
             if cls == "MySQLQuery" and self.p(0.3):
@@ -173,7 +176,8 @@ class G:
         if self.p(0.3):
             A.append({"group": "having", "calls": [{"m": "having", "a": [self.crit(TA, agg=True)]} for _ in range(self.rng.randint(1, 2))]})
         if self.p(0.5):
-            A.append({"group": "orderby", "calls": [self.order_call(TA) for _ in range(self.rng.randint(1, 3))]})
+            A.append({"group": "orderby", "calls": [self.order_call(TA, strings=(mode == "main"))
+                                                     for _ in range(self.rng.randint(1, 3))]})
         if self.p(0.5):
             A.append({"group": "page", "calls": self.page_calls(cls)})
         if cls in ("Query", "MySQLQuery", "PostgreSQLQuery", "OracleQuery") and self.p(0.25):
@@ -197,6 +201,13 @@ class G:
                 A.append({"group": "join", "calls": [self.join_call(TA, TB)]})
         return A
 
+    def name_or_field(self, tbl):
+        """String shorthand (resolved against the entry point's FROM table, which is fixed in the main mode) or a
+        Field; the strings include names that are also aliases of selected terms."""
+        if self.p(0.45):
+            return self.ch(COLS + ["k1", "s1", "s2"])
+        return F(tbl, self.ch(COLS))
+
     def jt(self):
         return {"t": "enum", "c": "JoinType", "v": self.ch(["inner", "left", "cross", "right"])} if self.p(0.5) else None
 
@@ -204,8 +215,8 @@ class G:
         return {"t": "meth", "x": {"t": "meth", "x": {"t": "cls", "name": cls}, "m": "from_", "a": [TC]}, "m": "select",
                 "a": [F(TC, "x")]}
 
-    def order_call(self, tbl):
-        c = {"m": "orderby", "a": [F(tbl, self.ch(COLS))]}
+    def order_call(self, tbl, strings=False):
+        c = {"m": "orderby", "a": [self.name_or_field(tbl) if strings else F(tbl, self.ch(COLS))]}
         if self.p(0.5):
             c["kw"] = {"order": {"t": "enum", "c": "Order", "v": self.ch(["asc", "desc"])}}
         return c
